@@ -15,6 +15,15 @@ func ZzC08() {
 	ctx := context.Background()
 	sc := zzBuildDelScenario(ctx)
 	s := sc.s
+	unsynced := zz.Param("UNSYNCED", 0) == 1 && zz.Bool("append.unsynced")
+	if unsynced {
+		// the next header is appended right before the deletion and is still queued for the writer when
+		// DeleteRange is called: the range has to be judged against the chain that includes it
+		zz.Assert(s.Append(ctx, sc.chain[sc.K]) == nil, "Append ok")
+		sc.K++
+		sc.headH = sc.chain[sc.K-1].H
+		zz.Reach("append-unsynced")
+	}
 	K := sc.K
 	anyPending := false
 	for i := 0; i < K; i++ {
@@ -24,7 +33,7 @@ func ZzC08() {
 	}
 	whole := sc.from == sc.tailH && sc.to == sc.headH+1
 
-	if sc.valid() && sc.from == sc.tailH && !whole && zz.Bool("append.during") {
+	if !unsynced && sc.valid() && sc.from == sc.tailH && !whole && zz.Bool("append.during") {
 		// the chain keeps growing at the head while the tail is pruned: the next header is appended (and the
 		// write queue drained) in the middle of the deletion, right before one chosen height is removed.
 		// With a small write batch this flushes whatever still sits in the batch at that moment.
